@@ -1,9 +1,11 @@
 """C13 — grading a submission is independent of what the process graded before it."""
-import copy
+import atexit
 import json
 import os
+import shutil
 import subprocess
 import sys
+import tempfile
 import time
 from concurrent.futures import ThreadPoolExecutor
 
@@ -43,6 +45,9 @@ NOTES = [
 
 WORKER = os.path.join(VERIF, "harness", "procstate_worker.py")
 JOBS = max(2, min(12, (os.cpu_count() or 4) - 2))
+#: gradings run with this as their working directory (tracing may drop a .coverage file there)
+SCRATCH = tempfile.mkdtemp(prefix="c13_run_")
+atexit.register(shutil.rmtree, SCRATCH, True)
 
 
 # ---------------------------------------------------------------------------------------------
@@ -55,15 +60,26 @@ class WorkerError(Exception):
 def run_worker(gradings, timeout=240):
     env = dict(os.environ)
     env["PYTHONHASHSEED"] = "0"
-    p = subprocess.run([sys.executable, "-X", "utf8", "-W", "ignore", WORKER, REPO],
-                       input=json.dumps([gen.wire(g) for g in gradings]), capture_output=True, text=True,
-                       timeout=timeout, env=env)
-    if p.returncode != 0:
-        raise WorkerError("worker exit %s: %s" % (p.returncode, p.stderr[-600:]))
+    # every interpreter gets an empty working directory of its own and reports through a file next to it
+    cwd = tempfile.mkdtemp(prefix="w_", dir=SCRATCH)
+    path = cwd + ".json"
     try:
-        out = json.loads(p.stdout)
-    except ValueError:
-        raise WorkerError("worker printed no JSON: %s" % (p.stdout[-300:] + p.stderr[-300:]))
+        p = subprocess.run([sys.executable, "-X", "utf8", "-W", "ignore", WORKER, REPO, path],
+                           input=json.dumps([gen.wire(g) for g in gradings]), capture_output=True, text=True,
+                           timeout=timeout, env=env, cwd=cwd)
+        if p.returncode != 0:
+            raise WorkerError("worker exit %s: %s" % (p.returncode, p.stderr[-600:]))
+        try:
+            with open(path, encoding="utf-8") as fh:
+                out = json.load(fh)
+        except ValueError:
+            raise WorkerError("worker wrote no JSON: %s" % p.stderr[-300:])
+    finally:
+        shutil.rmtree(cwd, True)
+        try:
+            os.unlink(path)
+        except OSError:
+            pass
     if len(out) != len(gradings):
         raise WorkerError("worker answered %d results for %d gradings" % (len(out), len(gradings)))
     return out
